@@ -71,12 +71,12 @@ PROP = dict(
                "levelmask_bits (finite table, kernel decide) and gen_levelmask tying the hand model of the mask helpers "
                "to definitions regenerated from boc/level_mask.go on every run; cache_sound / cache_sound_errors / hasher_calls_sound (both tables of a Hasher - immutable cells and hex strings - "
                "any sequence of Hash/HashString calls: every answer, value OR error, equals the uncached function's; "
-               "an error is never stored) / hash_structural; hash_ignores_reads (cells carrying agent bits' byte-level BitString with read cursor and a reference cursor at every node: any number of read-only operations anywhere leaves every hash unchanged) (memoised "
+               "an error is never stored) / hash_structural; reprHash_inj_wfExotic / cell_hash_inj (the representation hash determines a WFExotic tree - any types, masks <= 7 - under collision-freedom of H on the finite list of hashed representations Spec.allReprs; used by C18.proof_boc_collisionFree and available to C01's KeyInjOn); sha256_len32 (the driver's SHA-256 has 32-byte digests); hash_ignores_reads (cells carrying agent bits' byte-level BitString with read cursor and a reference cursor at every node: any number of read-only operations anywhere leaves every hash unchanged) (memoised "
                "hashing with any valid pointer-keyed table = plain recursion; result depends on the tree only); "
                "table_refines_tree (the table evaluation run by the compiled driver = the tree recursion the theorems "
-               "are about); forms_eq_spec (Hash256 / HashString / Level()); msg_tx_hash_is_spec (hash field of a decoded "
-               "tlb.Message / tlb.Transaction = hash of the definition, composing C16.msg_hash_is_cell_hash / "
-               "tx_hash_is_cell_hash); parsed_cells_hash_total (for EVERY byte string the BOC reader model of C07 accepts, "
+               "are about); forms_eq_spec (Hash256 / HashString / Level()); msg_tx_hash_is_spec (tree-level: composes C16.msg_hash_tree_level / tx_capture_tree_level) and "
+               "msg_heap_hash_is_spec (composes C16's heap theorem msg_hash_is_cell_hash: from any cursor state, with any "
+               "valid hasher table, Message.UnmarshalTLB reports the hash of the definition); parsed_cells_hash_total (for EVERY byte string the BOC reader model of C07 accepts, "
                "every row of the result unfolds, Table.infos returns a value or the depth error - never a panic, no other "
                "error - and the definition's hashes whenever the cell is WFExotic). Tie, checked on every run: Go Cell.Hash, all four level hashes/depths (hook "
                "VerifHashLevels[Cached]) and Level() vs the compiled model on generated WFExotic DAGs and on every cell "
